@@ -10,6 +10,7 @@ import (
 	"strings"
 
 	_ "github.com/MichaelMure/git-bug/zzverif/apisim"
+	_ "github.com/MichaelMure/git-bug/zzverif/bridgesim"
 	_ "github.com/MichaelMure/git-bug/zzverif/byzsim"
 	_ "github.com/MichaelMure/git-bug/zzverif/procsim"
 	_ "github.com/MichaelMure/git-bug/zzverif/repsim"
